@@ -96,8 +96,16 @@ namespace c18
       Assembly::SymbolicAssembler::assemble_matrix_2lvl(P, sf, sc);
       P.format();
       Cubature::DynamicFactory fac(cub);
-      Assembly::GridTransfer::assemble_prolongation_direct(P, sf, sc, fac);
-      if(trunc) { T = P.transpose(); T.format(); Assembly::GridTransfer::assemble_truncation_direct(T, sf, sc, fac); }
+      // extension round: the uint32 instantiations go through the cubature-name overloads of the *_direct helpers
+      constexpr bool by_name = !std::is_same<typename Mat_::IndexType, Index>::value;
+      if constexpr (by_name) Assembly::GridTransfer::assemble_prolongation_direct(P, sf, sc, cub);
+      else Assembly::GridTransfer::assemble_prolongation_direct(P, sf, sc, fac);
+      if(trunc)
+      {
+        T = P.transpose(); T.format();
+        if constexpr (by_name) Assembly::GridTransfer::assemble_truncation_direct(T, sf, sc, cub);
+        else Assembly::GridTransfer::assemble_truncation_direct(T, sf, sc, fac);
+      }
       R = P.transpose();
     }
   }
@@ -115,16 +123,16 @@ namespace c18
     }
   }
   template<typename Mat_> long double max_abs(const Mat_& A) { long double m = 0; for(Index k = 0; k < A.used_elements(); ++k) m = std::max(m, (long double)std::fabs(A.val()[k])); return m; }
-  template<typename DT_> long double max_abs_v(const LAFEM::DenseVector<DT_, Index>& v) { long double m = 0; for(Index k = 0; k < v.size(); ++k) m = std::max(m, (long double)std::fabs(v(k))); return m; }
+  template<typename DT_, typename IT_> long double max_abs_v(const LAFEM::DenseVector<DT_, IT_>& v) { long double m = 0; for(Index k = 0; k < v.size(); ++k) m = std::max(m, (long double)std::fabs(v(k))); return m; }
   template<typename Mat_> Index max_row_len(const Mat_& A) { Index m = 0; for(Index i = 0; i < A.rows(); ++i) m = std::max(m, Index(A.row_ptr()[i + 1] - A.row_ptr()[i])); return m; }
 
   /// coarse vector classes: 0 zero, 1 unit vector, 2 small integers, 3 dyadic, 4 scaled reals in +-[1e-3,1e3]
   // The tape supplies at most 32 values which are tiled over the vector with alternating sign: short tapes keep
   // rapidcheck's element-wise shrinking affordable (every tape entry costs ~30 re-evaluations of a failing case).
-  template<typename DT_>
-  LAFEM::DenseVector<DT_, Index> gen_vector(Tape& t, Index n, int cls, J& js, const char* key)
+  template<typename DT_, typename IT_ = Index>
+  LAFEM::DenseVector<DT_, IT_> gen_vector(Tape& t, Index n, int cls, J& js, const char* key)
   {
-    LAFEM::DenseVector<DT_, Index> v(n, DT_(0));
+    LAFEM::DenseVector<DT_, IT_> v(n, DT_(0));
     if(n == 0) return v;
     J a = J::arr();
     if(cls == 1) { Index j = Index(t.range(0, int(n) - 1)); v(j, DT_(1)); js.set(std::string(key) + "-unit", (long long)j); return v; }
@@ -237,18 +245,21 @@ namespace c18
   // ------------------------------------------------------------------------------------------------
   // the case
   // ------------------------------------------------------------------------------------------------
-  template<typename Shape_, template<typename> class ElemT_, typename DT_>
+  // IT_ is the index type of the matrices and vectors (extension round: std::uint32_t through the targets "idx32*";
+  // the decoder, the description and the oracles are those of the Index instantiations, plus the key "it")
+  template<typename Shape_, template<typename> class ElemT_, typename DT_, typename IT_ = Index>
   void run_case(Tape& t, Ctx& c, const ElemMeta& em, bool big)
   {
+    constexpr bool it32 = !std::is_same<IT_, Index>::value;
     constexpr int dim = Shape_::dimension;
     constexpr bool simplex = std::is_same<Shape_, Shape::Simplex<dim>>::value;
     typedef MeshT<Shape_> MeshType;
     typedef Trafo::Standard::Mapping<MeshType> TrafoType;
     typedef ElemT_<TrafoType> SpaceType;
-    typedef LAFEM::SparseMatrixCSR<DT_, Index> Mat;
-    typedef LAFEM::DenseVector<DT_, Index> Vec;
+    typedef LAFEM::SparseMatrixCSR<DT_, IT_> Mat;
+    typedef LAFEM::DenseVector<DT_, IT_> Vec;
     const long double eps = eps_of<DT_>();
-    const std::string etag = std::string(em.name) + "/" + (std::is_same<DT_, float>::value ? "f" : "d");
+    const std::string etag = std::string(em.name) + "/" + (std::is_same<DT_, float>::value ? "f" : "d") + (it32 ? "32" : "");
 
     // ---------------------------------------------------------------- decode
     MeshDesc md = gen_mesh(t, dim, simplex, big);
@@ -300,6 +311,7 @@ namespace c18
 
     // ---------------------------------------------------------------- describe
     c.desc.set("elem", em.name); c.desc.set("dt", std::is_same<DT_, float>::value ? "float" : "double");
+    if(it32) { c.desc.set("it", "u32"); c.label("it:u32"); }
     c.desc.set("mesh", md.js); c.desc.set("op", op_name(op)); c.desc.set("nref", nref);
     { J p = J::arr(); for(int l = 0; l <= nref; ++l) p.add(perm_name(perm_of(pst[l]))); c.desc.set("perm", p); }
     c.desc.set("variant", variant == 0 ? "asm-protocol" : "direct"); c.desc.set("cub", cub); c.desc.set("vec", vcls_name(vcls_eff));
@@ -326,9 +338,9 @@ namespace c18
     const int lc = (op == op_chain) ? 0 : nref - 1, lf = nref; // level pair under test
     const Index ndc = space[(size_t)lc]->get_num_dofs(), ndf = space[(size_t)lf]->get_num_dofs();
     J vj = J::obj();
-    Vec vc = gen_vector<DT_>(t, ndc, vcls_eff, vj, "c");
-    Vec vf2 = gen_vector<DT_>(t, (op == op_rest) ? ndf : Index(0), (op == op_rest) ? std::max(2, vcls_eff) : 0, vj, "f");
-    Vec vc2 = gen_vector<DT_>(t, (op == op_vecprol) ? ndc : Index(0), (op == op_vecprol) ? 2 : 0, vj, "c2");
+    Vec vc = gen_vector<DT_, IT_>(t, ndc, vcls_eff, vj, "c");
+    Vec vf2 = gen_vector<DT_, IT_>(t, (op == op_rest) ? ndf : Index(0), (op == op_rest) ? std::max(2, vcls_eff) : 0, vj, "f");
+    Vec vc2 = gen_vector<DT_, IT_>(t, (op == op_vecprol) ? ndc : Index(0), (op == op_vecprol) ? 2 : 0, vj, "c2");
     // polynomial coefficients (small integers) for the interpolation oracle
     const int pdeg = md.affine ? em.k : (em.lin_any ? std::min(em.k, 1) : 0);
     std::vector<std::array<int, 3>> mono; std::vector<double> coef;
@@ -442,7 +454,7 @@ namespace c18
       const long double tolv = 8.0L * 64.0L * (long double)(max_row_len(P) + 3) * (eps / 2);
       for(Index i = 0; i < ndf; ++i) VF_CHECK(std::fabs((long double)f(i) - ref[i]) <= tolv * (aref[i] + pmax * vmax) + 1e-300L, "vecprol: prolongate_vector[" << i << "]=" << (double)f(i) << " vs (P c)=" << (double)ref[i] << " matrix apply " << (double)y(i));
       // blocked
-      typedef LAFEM::DenseVectorBlocked<DT_, Index, 2> BVec;
+      typedef LAFEM::DenseVectorBlocked<DT_, IT_, 2> BVec;
       BVec bc(ndc), bf(ndf); bf.format();
       for(Index j = 0; j < ndc; ++j) { Tiny::Vector<DT_, 2> v2; v2[0] = vc(j); v2[1] = vc2(j); bc(j, v2); }
       if(variant == 0) { BVec bw(ndf); bw.format(); Assembly::GridTransfer::prolongate_vector(bf, bw, bc, sf, sc, String(cub)); bw.component_invert(bw); bf.component_product(bf, bw); }
@@ -480,6 +492,34 @@ namespace c18
         failed = Assembly::GridTransfer::transfer_intermesh_vector(tv, w, vc, sf, sc, f2c, icub);
         VF_CHECK(failed == 0, "intermesh: vector transfer failed to unmap " << failed << " points");
         w.component_invert(w); tv.component_product(tv, w);
+        if(variant == 1)
+        {
+          // extension round (no tape draws): the *_direct vector variant - instantiable since /repo bfe7709f6 - is the
+          // protocol above in a single call; only the order of the OpenMP scatter-adds may differ
+          Vec td(ndf, DT_(0));
+          failed = Assembly::GridTransfer::transfer_intermesh_vector_direct(td, vc, sf, sc, f2c, icub);
+          VF_CHECK(failed == 0, "intermesh: direct vector transfer failed to unmap " << failed << " points");
+          const long double told = 64.0L * eps * (pmax * max_abs_v(vc) * (long double)max_row_len(P)) + 1e-300L;
+          for(Index i = 0; i < ndf; ++i) VF_CHECK(std::fabs((long double)td(i) - (long double)tv(i)) <= told, "intermesh: transfer_intermesh_vector_direct[" << i << "]=" << (double)td(i) << " vs weight protocol " << (double)tv(i));
+        }
+        if constexpr (it32)
+        {
+          // extension round: blocked inter-mesh vector transfer; component 1 is -c/2 (an exact scaling), so both
+          // components are known from the scalar result up to the order of the scatter-adds
+          typedef LAFEM::DenseVectorBlocked<DT_, IT_, 2> BVec;
+          BVec bs(ndc), bt(ndf), bw(ndf); bt.format(); bw.format();
+          for(Index j = 0; j < ndc; ++j) { Tiny::Vector<DT_, 2> v2; v2[0] = vc(j); v2[1] = DT_(-0.5) * vc(j); bs(j, v2); }
+          failed = Assembly::GridTransfer::transfer_intermesh_vector(bt, bw, bs, sf, sc, f2c, icub);
+          VF_CHECK(failed == 0, "intermesh: blocked vector transfer failed to unmap " << failed << " points");
+          bw.component_invert(bw); bt.component_product(bt, bw);
+          const long double told = 64.0L * eps * (pmax * max_abs_v(vc) * (long double)max_row_len(P)) + 1e-300L;
+          for(Index i = 0; i < ndf; ++i)
+          {
+            auto v2 = bt(i);
+            VF_CHECK(std::fabs((long double)v2[0] - (long double)tv(i)) <= told, "intermesh: blocked vector transfer component 0 [" << i << "]=" << (double)v2[0] << " vs scalar " << (double)tv(i));
+            VF_CHECK(std::fabs((long double)v2[1] + 0.5L * (long double)tv(i)) <= told, "intermesh: blocked vector transfer component 1 [" << i << "]=" << (double)v2[1] << " vs scalar " << (double)(-0.5L * tv(i)));
+          }
+        }
       };
       Mat M1, Mn; Vec t1, tn;
       run(1, M1, t1);
